@@ -9,158 +9,42 @@ import NoirVerif.Lemmas.FileSplit
 /-! ## Integer ranges (`ParallelIteratorSource` over `Range<T>`) -/
 namespace Noir.Range
 
-/-- `2^62`: the quantifier bound on the number of elements (and, here, of replicas). -/
-def TWO62 : Int := 4611686018427387904
+/-- `x` is a value of type `t`. -/
+def Ty.Holds (t : Ty) (x : Int) : Prop := t.lo ≤ x ∧ x ≤ t.hi
 
-/-- **Range<u64>** (parallel_iterator.rs:27-40). For every forward range `s ≤ e` of at most 2^62 elements
-    and every replica count `1 ≤ p ≤ 2^62`: no replica panics, the chunks of replicas `0..p-1` concatenate
-    to exactly `s, …, e-1`, and they are disjoint and ordered (see `Partition`). -/
+/-- **Forward ranges, the nine macro types** (u8 u16 u32 usize i8 i16 i32 i64 isize;
+    parallel_iterator.rs:44-78). For every range `s ≤ e` of the type — of *any* size — and every replica
+    count `1 ≤ p` (a `u64`): no replica panics, the chunks of replicas `0..p-1` concatenate to exactly
+    `s, …, e-1`, and they are disjoint and ordered (`Partition`, Lemmas/Range.lean). No size bound is
+    needed: the code computes in `i128`. -/
+theorem range_chunks_partition (t : Ty) (s e : Int) (p : Nat) (hs : t.Holds s) (he : t.Holds e) (hse : s ≤ e)
+    (hp1 : 1 ≤ p) (hp2 : (p : Int) ≤ U64_MAX) :
+    Partition (fun i => genMacro t s e i p) s e p :=
+  partition_of_bounds hse hp1 (fun _ hi => genMacro_elems hs.1 hse he.2 hp1 hp2 hi)
+
+/-- **Forward ranges, `Range<u64>`** (parallel_iterator.rs:27-42). Same statement; the `u64` code really
+    needs one arithmetic side condition: `(e - s) + p - 1` must not exceed `u64::MAX` — beyond it
+    `n.saturating_add(peers - 1)` saturates, the chunk size is rounded down and the tail of the range is
+    lost (e.g. `0..u64::MAX` on 2 replicas misses the last element). This covers C15's quantifier
+    (≤ 2^62 elements, any realistic replica count) with a huge margin. -/
 theorem range_chunks_partition_u64 (s e : Int) (p : Nat) (hs : 0 ≤ s) (hse : s ≤ e) (he : e ≤ U64_MAX)
-    (hn : e - s ≤ TWO62) (hp1 : 1 ≤ p) (hp2 : (p : Int) ≤ TWO62) :
+    (hp1 : 1 ≤ p) (hn : e - s + (p : Int) - 1 ≤ U64_MAX) :
     Partition (fun i => genU64 s e i p) s e p :=
-  partition_of_bounds hse hp1 (fun _ hi => genU64_elems hs hse he hn hp1 hp2 hi)
+  partition_of_bounds hse hp1 (fun _ hi => genU64_elems hs hse he hn hp1 hi)
 
-/-- **Range<i64>** (macro instance, parallel_iterator.rs:42-62, 72): full strength, as for `u64`. -/
-theorem range_chunks_partition_i64 (s e : Int) (p : Nat) (hs : I64_MIN ≤ s) (hse : s ≤ e) (he : e ≤ I64_MAX)
-    (hn : e - s ≤ TWO62) (hp1 : 1 ≤ p) (hp2 : (p : Int) ≤ TWO62) :
-    Partition (fun i => genMacro .i64 s e i p) s e p :=
-  partition_of_bounds hse hp1
-    (fun _ hi => genMacro_elems (t := .i64) hs hse he he hn hp1 hp2 hi (Or.inl (Int.le_refl _)))
+/-- **Reversed or empty ranges, the nine macro types**: for `e ≤ s` every replica — whatever its index —
+    gets an empty range and nothing panics. -/
+theorem range_reversed_empty (t : Ty) (s e : Int) (i p : Nat) (hs : t.Holds s) (hes : e ≤ s) (hp1 : 1 ≤ p) :
+    (genMacro t s e i p).isPanic = false ∧ (genMacro t s e i p).elems = [] := by
+  rw [genMacro_reversed i hs.1 hs.2 hes hp1]
+  exact ⟨rfl, intRange_empty (Int.le_refl _)⟩
 
-/-- **Range<isize>** (64-bit target): full strength. -/
-theorem range_chunks_partition_isize (s e : Int) (p : Nat) (hs : I64_MIN ≤ s) (hse : s ≤ e) (he : e ≤ I64_MAX)
-    (hn : e - s ≤ TWO62) (hp1 : 1 ≤ p) (hp2 : (p : Int) ≤ TWO62) :
-    Partition (fun i => genMacro .isize s e i p) s e p :=
-  partition_of_bounds hse hp1
-    (fun _ hi => genMacro_elems (t := .isize) hs hse he he hn hp1 hp2 hi (Or.inl (Int.le_refl _)))
-
-/- Full-strength statement for `Range<usize>` (what C15 asks for):
-     `∀ s e p, 0 ≤ s → s ≤ e → e ≤ U64_MAX → e - s ≤ 2^62 → 1 ≤ p → p ≤ 2^62 →
-        Partition (fun i => genMacro .usize s e i p) s e p`.
-   It is FALSE for the unchanged code (finding F7, `range_usize_counterexample`): the macro computes in
-   `i64`, bounds ≥ 2^63 are reinterpreted as negative numbers and `try_into::<usize>()` fails.
-   What holds is the statement restricted to `e < 2^63`. -/
-
-/-- **Range<usize>**, partial: bounds below 2^63 (extra hypothesis `e ≤ I64_MAX`). -/
-theorem range_chunks_partition_usize_partial (s e : Int) (p : Nat) (hs : 0 ≤ s) (hse : s ≤ e)
-    (he : e ≤ I64_MAX) (hn : e - s ≤ TWO62) (hp1 : 1 ≤ p) (hp2 : (p : Int) ≤ TWO62) :
-    Partition (fun i => genMacro .usize s e i p) s e p :=
-  partition_of_bounds hse hp1
-    (fun _ hi => genMacro_elems (t := .usize) hs hse (by simp [Ty.hi, U64_MAX, I64_MAX] at *; omega) he hn hp1 hp2 hi
-      (Or.inl (by decide)))
-
-/-- F7: `(2^63 .. 2^63+10usize).generate_iterator(0, 2)` panics (`try_into().unwrap()`), although the range
-    is a perfectly valid forward range of 10 elements. -/
-theorem range_usize_counterexample :
-    ¬ Partition (fun i => genMacro .usize 9223372036854775808 9223372036854775818 i 2)
-        9223372036854775808 9223372036854775818 2 := by
-  intro h
-  have := h.1 0 (by decide)
-  revert this
-  decide
-
-/- Full-strength statement for the narrow types `t ∈ {u8,u16,u32,i8,i16,i32}`:
-     `∀ s e p, t.lo ≤ s → s ≤ e → e ≤ t.hi → 1 ≤ p → Partition (fun i => genMacro t s e i p) s e p`.
-   It is FALSE for the unchanged code (NEW finding, `range_narrow_counterexample`): replica `i` starts at
-   `s + i·⌈(e-s)/p⌉`, which can exceed `e` — harmless in `i64`, but the value is converted back with
-   `try_into::<t>().unwrap()` *before* the range is known to be empty, so it panics when it exceeds
-   `t::MAX`. What holds is the statement under the extra hypothesis that the last replica's start offset
-   fits the type. -/
-
-/-- **Narrow and all other macro types**, partial: extra hypothesis `hfit` — the start offset of the last
-    replica, `s + (p-1)·⌈(e-s)/p⌉`, is representable in the element type. -/
-theorem range_chunks_partition_narrow_partial (t : Ty) (s e : Int) (p : Nat) (hs : t.lo ≤ s) (hse : s ≤ e)
-    (he : e ≤ t.hi) (he64 : e ≤ I64_MAX) (hn : e - s ≤ TWO62) (hp1 : 1 ≤ p) (hp2 : (p : Int) ≤ TWO62)
-    (hfit : s + ((p : Int) - 1) * ((e - s + (p : Int) - 1) / (p : Int)) ≤ t.hi) :
-    Partition (fun i => genMacro t s e i p) s e p := by
-  apply partition_of_bounds hse hp1
-  intro i hi
-  apply genMacro_elems hs hse he he64 hn hp1 hp2 hi
-  right
-  obtain ⟨c0, _, _⟩ := chunk_facts (n := e - s) (p := (p : Int)) (by omega) (by omega)
-  have : (i : Int) * chunkOf s e p ≤ ((p : Int) - 1) * chunkOf s e p := mul_le_of_le (by omega) c0
-  unfold chunkOf at this ⊢
-  omega
-
-/-- NEW finding: `(250u8..255).generate_iterator(6, 8)` panics: chunk = 1, start = 256 does not fit `u8`
-    (any machine with ≥ 7 cores running `stream_par_iter(250u8..255)`). -/
-theorem range_narrow_counterexample :
-    ¬ Partition (fun i => genMacro .u8 250 255 i 8) 250 255 8 := by
-  intro h
-  have := h.1 6 (by decide)
-  revert this
-  decide
-
-/- Full-strength statement `range_reversed_empty` (what C15 asks for):
-     `∀ t s e i p, t.lo ≤ s → s ≤ t.hi → t.lo ≤ e → e ≤ t.hi → e ≤ s → 1 ≤ p → i < p →
-        (genMacro t s e i p).isPanic = false ∧ (genMacro t s e i p).elems = []`   (same for `genU64`).
-   It is FALSE for the unchanged code (finding F1): -/
-
-/-- F1 (macro): `(10u8..0).generate_iterator(1, 4)` is `9..10` — a reversed range yields an element. -/
-theorem range_reversed_counterexample : (genMacro .u8 10 0 1 4).elems = [9] := by decide
-
-/-- F1 (`u64`): `(5u64..3).generate_iterator(0, 1)` panics on `self.end - self.start` (overflow checks). -/
-theorem range_reversed_u64_counterexample : (genU64 5 3 0 1).isPanic = true := by decide
-
-/-- What does hold, part 1: an **empty** range (`s = e`) yields nothing on every replica, without panic
-    (`u64`). -/
-theorem range_reversed_empty_u64_partial (s : Int) (i p : Nat) (hs : 0 ≤ s) (he : s ≤ U64_MAX)
-    (hp1 : 1 ≤ p) (hp2 : (p : Int) ≤ TWO62) (hi : i < p) :
-    (genU64 s s i p).isPanic = false ∧ (genU64 s s i p).elems = [] := by
-  obtain ⟨a, b, h1, h2⟩ := genU64_elems (s := s) (e := s) hs (Int.le_refl _) he (by simp) hp1 hp2 hi
-  rw [h1]
-  refine ⟨rfl, ?_⟩
-  show intRange a b = []
-  rw [h2]
-  apply intRange_empty
-  obtain ⟨c0, _, _⟩ := chunk_facts (n := s - s) (p := (p : Int)) (by omega) (by omega)
-  have c0' : 0 ≤ chunkOf s s p := c0
-  have m1 : 0 ≤ (i : Int) * chunkOf s s p := Int.mul_nonneg (by omega) c0'
-  have m2 : 0 ≤ ((i + 1 : Nat) : Int) * chunkOf s s p := Int.mul_nonneg (by omega) c0'
-  unfold bound; omega
-
-/-- What does hold, part 2: an **empty** range yields nothing on every replica, without panic, for every
-    macro type (for `usize` below 2^63, cf. F7). -/
-theorem range_reversed_empty_macro_partial (t : Ty) (s : Int) (i p : Nat) (hs : t.lo ≤ s) (he : s ≤ t.hi)
-    (he64 : s ≤ I64_MAX) (hp1 : 1 ≤ p) (hp2 : (p : Int) ≤ TWO62) (hi : i < p) :
-    (genMacro t s s i p).isPanic = false ∧ (genMacro t s s i p).elems = [] := by
-  have hc := chunkOf_empty s p hp1
-  obtain ⟨a, b, h1, h2⟩ := genMacro_elems (t := t) (s := s) (e := s) hs (Int.le_refl _) he he64
-    (by simp) hp1 hp2 hi (Or.inr (by rw [hc]; omega))
-  rw [h1]
-  refine ⟨rfl, ?_⟩
-  show intRange a b = []
-  rw [h2]
-  apply intRange_empty
-  unfold bound; rw [hc]; omega
-
-/-- What does hold, part 3: replica 0 of a **reversed** range (macro types; distance ≤ 2^62, `usize` below
-    2^63) yields nothing and does not panic — in particular a reversed range is harmless with one replica.
-    Replicas `i ≥ 1` are the ones that yield elements / fail the conversion (F1). -/
-theorem range_reversed_first_replica_partial (t : Ty) (s e : Int) (p : Nat) (he : t.lo ≤ e) (hes : e < s)
-    (hs : s ≤ t.hi) (hs64 : s ≤ I64_MAX) (hn : s - e ≤ TWO62) (hp1 : 1 ≤ p) (hp2 : (p : Int) ≤ TWO62) :
-    (genMacro t s e 0 p).isPanic = false ∧ (genMacro t s e 0 p).elems = [] := by
-  have hM : I64_MAX = 9223372036854775807 := rfl
-  have hm : I64_MIN = -9223372036854775808 := rfl
-  have hlo := t.lo_ge
-  have hlo0 := t.lo_le
-  have hp0 : ¬ p = 0 := by omega
-  have h1 : ¬ (((0 : Nat) : Int) > I64_MAX) := by omega
-  have h2 : ¬ ((p : Int) > I64_MAX) := by unfold TWO62 at hp2; omega
-  have hs64' : t.asI64 s = s := asI64_of_le hs64
-  have he64' : t.asI64 e = e := asI64_of_le (by omega)
-  have hchk : chkI64 (e - s) = some (e - s) := chkI64_of_bounds (by unfold TWO62 at hn; omega) (by omega)
-  have hprod : ∀ c : Int, chkI64 (((0 : Nat) : Int) * c) = some 0 := by
-    intro c; simp [chkI64, hM, hm]
-  unfold genMacro
-  simp only [h1, h2, if_false, hs64', he64', hchk, hp0, hprod]
-  generalize Int.tdiv (satAdd I64_MIN I64_MAX (e - s) ((p : Int) - 1)) (p : Int) = c
-  have hstart : satAdd I64_MIN I64_MAX s 0 = s := by unfold satAdd; omega
-  have hend : max (min (satAdd I64_MIN I64_MAX s c) e) s = s := by omega
-  rw [hstart, hend, fromI64_of_bounds (by omega) hs]
-  refine ⟨rfl, ?_⟩
-  show intRange s s = []
-  exact intRange_empty (Int.le_refl _)
+/-- **Reversed or empty ranges, `Range<u64>`**. -/
+theorem range_reversed_empty_u64 (s e : Int) (i p : Nat) (hs : 0 ≤ s) (hs' : s ≤ U64_MAX) (hes : e ≤ s)
+    (hp1 : 1 ≤ p) (hp2 : (p : Int) ≤ U64_MAX) :
+    (genU64 s e i p).isPanic = false ∧ (genU64 s e i p).elems = [] := by
+  rw [genU64_reversed i hs hs' hes hp1 hp2]
+  exact ⟨rfl, intRange_empty (Int.le_refl _)⟩
 
 /-! ### Non-parallel source -/
 
@@ -176,20 +60,32 @@ theorem single_source_in_order {α : Type} (items : List α) :
     simp only [iterNext]
     rw [ih]
 
-/-! ### non-vacuity: concrete instances meeting the hypotheses -/
+/-! ### non-vacuity: concrete instances meeting the hypotheses (among them the inputs on which the code
+    failed before the fix ebec77c: F1, F7, F10) -/
 
 example : Partition (fun i => genU64 0 10 i 4) 0 10 4 :=
-  range_chunks_partition_u64 0 10 4 (by decide) (by decide) (by decide) (by decide) (by decide) (by decide)
+  range_chunks_partition_u64 0 10 4 (by decide) (by decide) (by decide) (by decide) (by decide)
 example : (List.range 4).map (fun i => genU64 0 10 i 4) = [.range 0 3, .range 3 6, .range 6 9, .range 9 10] := by
   decide
 example : Partition (fun i => genMacro .i64 (-5) 5 i 3) (-5) 5 3 :=
-  range_chunks_partition_i64 (-5) 5 3 (by decide) (by decide) (by decide) (by decide) (by decide) (by decide)
+  range_chunks_partition .i64 (-5) 5 3 ⟨by decide, by decide⟩ ⟨by decide, by decide⟩ (by decide) (by decide) (by decide)
 example : (List.range 3).map (fun i => genMacro .i64 (-5) 5 i 3) = [.range (-5) (-1), .range (-1) 3, .range 3 5] := by
   decide
-example : Partition (fun i => genMacro .u8 0 255 i 4) 0 255 4 :=
-  range_chunks_partition_narrow_partial .u8 0 255 4 (by decide) (by decide) (by decide) (by decide) (by decide)
-    (by decide) (by decide) (by decide)
-example : (genMacro .u8 250 255 6 8) = .unwrap := by decide
+-- F10: (250u8..255) on 8 replicas
+example : (List.range 8).map (fun i => genMacro .u8 250 255 i 8) =
+    [.range 250 251, .range 251 252, .range 252 253, .range 253 254, .range 254 255,
+     .range 255 255, .range 255 255, .range 255 255] := by decide
+-- F7: (2^63 .. 2^63+10 usize) on 2 replicas
+example : (List.range 2).map (fun i => genMacro .usize 9223372036854775808 9223372036854775818 i 2) =
+    [.range 9223372036854775808 9223372036854775813, .range 9223372036854775813 9223372036854775818] := by
+  decide
+-- F1: (10u8..0) on 4 replicas, (5u64..3) on 1 replica
+example : (List.range 4).map (fun i => genMacro .u8 10 0 i 4) =
+    [.range 10 10, .range 10 10, .range 10 10, .range 10 10] := by decide
+example : genU64 5 3 0 1 = .range 5 5 := by decide
+-- outside the side condition of `range_chunks_partition_u64`: 0..u64::MAX on 2 replicas loses the last element
+example : (List.range 2).map (fun i => genU64 0 18446744073709551615 i 2) =
+    [.range 0 9223372036854775807, .range 9223372036854775807 18446744073709551614] := by decide
 
 end Noir.Range
 
